@@ -69,6 +69,14 @@ func Setup() {
 		if base == "" {
 			base = "/var/tmp"
 		}
+		// directories left behind by runs that could not clean up (replay exits through os.Exit)
+		if old, err := filepath.Glob("/dev/shm/verif-db-*"); err == nil {
+			for _, d := range old {
+				if st, err := os.Stat(d); err == nil && time.Since(st.ModTime()) > 6*time.Hour {
+					_ = os.RemoveAll(d)
+				}
+			}
+		}
 		if st, err := os.Stat("/dev/shm"); err == nil && st.IsDir() && os.Getenv("VERIF_NO_SHM") == "" {
 			if d, err := os.MkdirTemp("/dev/shm", "verif-db-"); err == nil {
 				root = d
